@@ -67,3 +67,24 @@ def afterValue (eol : List Char) (vTrail : List Out) (pLead pTrail : List Triv) 
     (sameLine (onlyComments vTrail) ++ load eol .trailing pTrail).map some
 
 end StyluaModel.Punct
+
+/-
+Model of the trivia handling when format_function_args changes the form of a single-argument call
+(/repo/src/formatters/functions.rs 370-412 parentheses dropped, 487-528 parentheses added; string argument):
+  * `f("x")` → `f "x"`: the argument token keeps its own trivia and receives the *trailing* trivia of `)`; the
+    trivia in front of `(`, behind `(` and in front of `)` is not carried over;
+  * `f "x"` → `f("x")`: the formatted argument's trailing comments are moved behind a fresh `)`.
+-/
+namespace StyluaModel.Sugar
+open StyluaModel.Trivia StyluaModel.Semi StyluaModel.FieldKey StyluaModel.HangOp
+
+/-- parentheses dropped: (leading, trailing) trivia of the string token as printed -/
+def dropParens (eol : List Char) (_openLead _openTrail argLead argTrail _closeLead closeTrail : List Triv) :
+    List Out × List Out :=
+  (load eol .leading argLead ++ [Out.space], load eol .trailing (argTrail ++ closeTrail))
+
+/-- parentheses added: leading trivia of the argument, trailing trivia of the new `)` -/
+def addParens (eol : List Char) (argLead argTrail : List Triv) : List Out × List Out :=
+  (load eol .leading argLead, sameLine (onlyComments (load eol .trailing argTrail)))
+
+end StyluaModel.Sugar
